@@ -7,11 +7,13 @@ package generic
 import (
 	"fmt"
 	"math/big"
+	mrand "math/rand"
 	"strings"
 
 	"github.com/consensys/gnark-crypto/ecc"
 	bls12377 "github.com/consensys/gnark-crypto/ecc/bls12-377"
 	bls12381 "github.com/consensys/gnark-crypto/ecc/bls12-381"
+	secpecdsa "github.com/consensys/gnark-crypto/ecc/secp256k1/ecdsa"
 	bn254te "github.com/consensys/gnark-crypto/ecc/bn254/twistededwards"
 	tedwards "github.com/consensys/gnark-crypto/ecc/twistededwards"
 	"github.com/consensys/gnark/backend"
@@ -24,6 +26,7 @@ import (
 	"github.com/consensys/gnark/std/algebra/emulated/sw_emulated"
 	"github.com/consensys/gnark/std/algebra/native/sw_bls12377"
 	"github.com/consensys/gnark/std/algebra/native/twistededwards"
+	"github.com/consensys/gnark/std/evmprecompiles"
 	"github.com/consensys/gnark/std/math/emulated"
 
 	"verifharness/common"
@@ -413,6 +416,83 @@ func swJointRun[B, S emulated.FieldParams](c *HintCase, fam string, res *HintRes
 	solveAndProve(&swJointCircuit[B, S]{}, assign, opts, res)
 }
 
+// ---- ECRECOVER precompile gadget: the recovered public key is hinted ----
+
+type ecrecoverCircuit struct {
+	Message   emulated.Element[emulated.Secp256k1Fr]
+	V         frontend.Variable
+	R, S      emulated.Element[emulated.Secp256k1Fr]
+	Strict    frontend.Variable
+	IsFailure frontend.Variable
+	Expected  sw_emulated.AffinePoint[emulated.Secp256k1Fp]
+}
+
+func (c *ecrecoverCircuit) Define(api frontend.API) error {
+	curve, err := sw_emulated.New[emulated.Secp256k1Fp, emulated.Secp256k1Fr](api, sw_emulated.GetSecp256k1Params())
+	if err != nil {
+		return err
+	}
+	res := evmprecompiles.ECRecover(api, c.Message, c.V, c.R, c.S, c.Strict, c.IsFailure)
+	curve.AssertIsEqual(&c.Expected, res)
+	return nil
+}
+
+func ecrecoverHintRun(c *HintCase, res *HintRes) {
+	sk, err := secpecdsa.GenerateKey(detRand{mrand.New(mrand.NewSource(int64(4242 + c.ID)))})
+	if err != nil {
+		res.Err = "INFRA " + err.Error()
+		return
+	}
+	msg := []byte("C16 ecrecover")
+	v, r, s, err := sk.SignForRecover(msg, nil)
+	if err != nil {
+		res.Err = "INFRA " + err.Error()
+		return
+	}
+	var pk secpecdsa.PublicKey
+	if err := pk.RecoverFrom(msg, v, r, s); err != nil || !pk.A.Equal(&sk.PublicKey.A) {
+		res.Err = fmt.Sprintf("INFRA native recovery: %v", err)
+		return
+	}
+	px, py := pk.A.X.BigInt(new(big.Int)), pk.A.Y.BigInt(new(big.Int))
+	claimX, claimY := px, py
+	var emfp emulated.Secp256k1Fp
+	n := int(emfp.NbLimbs())
+	tamper := -1
+	switch c.Strategy {
+	case "honest":
+		if c.Claim == "wrong" {
+			claimY = new(big.Int).Xor(py, big.NewInt(1))
+		}
+	case "tamperY":
+		claimY = new(big.Int).Xor(py, big.NewInt(1))
+		tamper = n // lowest limb of Y
+	case "tamperX":
+		claimX = new(big.Int).Xor(px, big.NewInt(1))
+		tamper = 0 // lowest limb of X
+	default:
+		res.Err = "INFRA unknown strategy " + c.Strategy
+		return
+	}
+	assign := &ecrecoverCircuit{
+		Message: emulated.ValueOf[emulated.Secp256k1Fr](secpecdsa.HashToInt(msg)), V: v + 27,
+		R: emulated.ValueOf[emulated.Secp256k1Fr](r), S: emulated.ValueOf[emulated.Secp256k1Fr](s), Strict: 0, IsFailure: 0,
+		Expected: sw_emulated.AffinePoint[emulated.Secp256k1Fp]{X: emulated.ValueOf[emulated.Secp256k1Fp](claimX), Y: emulated.ValueOf[emulated.Secp256k1Fp](claimY)},
+	}
+	var opts []solver.Option
+	if tamper >= 0 {
+		orig := hintByName(evmprecompiles.GetHints(), "recoverPublicKeyHint")
+		opts = append(opts, solver.OverrideHint(solver.GetHintID(orig), func(f *big.Int, in, out []*big.Int) error {
+			if err := orig(f, in, out); err != nil {
+				return err
+			}
+			out[tamper].Xor(out[tamper], big.NewInt(1))
+			return nil
+		}))
+	}
+	solveAndProve(&ecrecoverCircuit{}, assign, opts, res)
+}
+
 // CurveHints runs the hint adversaries.
 func CurveHints(args common.Args, out *common.Out) error {
 	cases, err := common.ReadNDJSON[HintCase](args.Get("in", ""))
@@ -431,6 +511,8 @@ func CurveHints(args common.Args, out *common.Out) error {
 				swJointRun[emulated.Secp256k1Fp, emulated.Secp256k1Fr](c, "secp256k1", &res)
 			case "joint-bn254":
 				swJointRun[emulated.BN254Fp, emulated.BN254Fr](c, "bn254", &res)
+			case "ecrecover":
+				ecrecoverHintRun(c, &res)
 			case "pairing-bls12377":
 				pairHintRun(c, &res)
 			case "finalexp-bls12381":
